@@ -1,9 +1,9 @@
 /* C05 (c) L1: the REAL secp256k1_sha256_transform (the library's default compression function, i.e. what
  * the oracle of hash_spec.h stands for when n_blocks > 1): for every n_blocks it calls the one-block
  * compression secp256k1_sha256_transform_impl exactly n_blocks times, call i on (state, blocks64 + 64 i),
- * in that order, and touches nothing else.  The n_blocks loop is closed by the loop contract of
- * hooks/C05_hash_transform_loop.diff (invariant: blocks64 = entry + 64 (calls so far), ghost-watched call
- * received its pointer); transform_impl is replaced by a logging contract (frame: s[0..7]). */
+ * in that order, and touches nothing else.  The n_blocks loop is closed by the loop contract in
+ * engine/units/C05_hash.py (invariant: blocks64 = entry + 64 (calls so far), ghost-watched call received
+ * its pointer; no /repo edit); transform_impl is replaced by a logging contract (frame: s[0..7]). */
 #include "hash_spec.h"
 size_t verif_tr_calls, verif_tr_watch; const unsigned char *verif_tr_ptr; uint32_t *verif_tr_state;
 static void secp256k1_sha256_transform_impl(uint32_t *s, const unsigned char *buf)
